@@ -22,7 +22,7 @@ just before `fork` is the `open("/dev/null")` / the `lseek(s, 0)` on `s`", and "
 "every descriptor the RUN created and has not released at a `fork` was created by a close-on-exec form"
 (descriptors 0, 1, 2 and anything else the process was started with are outside the table).  That the
 vector reaches `execvp` unchanged, without a shell, is tied to util.c by the correspondence run
-(`harness/unit/exechelper.c`), not by a theorem.
+(`harness/shim/exechelper.c` records argv, stdin bytes and /proc/self/fd of the real child; tools/props/c13.py), not by a theorem.
 -/
 
 namespace Mdsort.Props
